@@ -9,8 +9,8 @@ from concurrent.futures import ThreadPoolExecutor
 
 from .base import Result, V
 
-MODULES = ['TickitModel.Props.C17', 'TickitModel.Props.C17Codec', 'TickitModel.Props.C16']
-THEOREMS = ['dispatch_by_tag', 'dispatch_none_iff', 'dispatch_perm_invariant', 'dispatch_ignores_others', 'select_exact', 'select_unknown', 'select_all', 'wiring_from_configs_exact', 'keys_from_configs', 'conn_fromInverse', 'config_roundtrip', 'unknown_tag_rejected', 'decode_depends_on_tag_only']
+MODULES = ['TickitModel.Props.C17', 'TickitModel.Props.C17Codec', 'TickitModel.Props.C16', "TickitModel.Props.C17Partition"]
+THEOREMS = ["select_subset", "two_part_division", "division_hosts_once", 'dispatch_by_tag', 'dispatch_none_iff', 'dispatch_perm_invariant', 'dispatch_ignores_others', 'select_exact', 'select_unknown', 'select_all', 'wiring_from_configs_exact', 'keys_from_configs', 'conn_fromInverse', 'config_roundtrip', 'unknown_tag_rejected', 'decode_depends_on_tag_only']
 ANCHORS = ["src/tickit/utils/configuration/tagged_union.py", "src/tickit/utils/configuration/loading.py", "src/tickit/core/components/component.py",
            "src/tickit/core/management/event_router.py", "src/tickit/core/simulation.py", "src/tickit/core/components/system_component.py"]
 TECHNIQUE = "Lean 4 theorems over the tag-dispatch/selection/wiring-from-configs model (class chosen by tag only, independent of registry order and of look-alike classes; unknown tag rejected; exact selection; wiring = declared inputs) + differential run of read_configs/build_simulation in fresh interpreters over generated classes, import orders and nested entries"
